@@ -487,6 +487,29 @@ func (di *defIndex) single(o types.Object) ast.Expr {
 	return nil
 }
 
+// singleNonConst is single() ignoring definitions by a constant literal (`x := -1`
+// placeholders overwritten later); used for provenance only, never for canonical terms.
+func (di *defIndex) singleNonConst(o types.Object) ast.Expr {
+	var found ast.Expr
+	for _, d := range di.defs[o] {
+		if d == nil {
+			return nil
+		}
+		e := unparen(d)
+		if u, ok := e.(*ast.UnaryExpr); ok {
+			e = unparen(u.X)
+		}
+		if _, ok := e.(*ast.BasicLit); ok {
+			continue
+		}
+		if found != nil {
+			return nil
+		}
+		found = d
+	}
+	return found
+}
+
 // rootOf follows single definitions through selectors/calls to the root object:
 // `index := va.Desc.Index()` has root va; `upn := va.Upn` has root va.
 func (di *defIndex) rootOf(info *types.Info, e ast.Expr, depth int) types.Object {
@@ -502,7 +525,7 @@ func (di *defIndex) rootOf(info *types.Info, e ast.Expr, depth int) types.Object
 		if o == nil {
 			return nil
 		}
-		if d := di.single(o); d != nil {
+		if d := di.singleNonConst(o); d != nil {
 			if r := di.rootOf(info, d, depth+1); r != nil {
 				return r
 			}
